@@ -70,6 +70,13 @@ def gen_original(g, name, prefix, others, P=None, p_clock=0.0, markers=False):
             # (only clones made by 'rear' are), however the original itself came to run (cloned at build time or reared)
             acts.append({"k": "raw", "ctx": "enter", "text": "raze %s in frame %s%d" % (side.choice(["all", "first", "last"]), prefix, 0)})
         frames.append({"name": fn, "over": None, "acts": acts})
+    if side.random() < 0.3:
+        # a small hierarchy inside the original: two frames under its first frame, the second one made the primary under by the
+        # 'under' verb (the entered outline of a clone must follow the same primary under as the original's)
+        kids = [{"name": "%s%s" % (prefix, c), "over": frames[0]["name"],
+                 "acts": [{"k": "rec", "ctx": cx, "tag": "%s%s.%s" % (prefix, c, cx)} for cx in ("enter", "recur", "exit")]} for c in ("x", "y")]
+        frames[0]["under"] = kids[1]["name"]
+        frames[1:1] = kids
     if others and any(a["k"] == "clone" for a in frames[0]["acts"]) and side.random() < 0.3:
         # ... and the same from the holding frame itself while the build-time clones in it are running
         frames[0]["acts"].insert(len(frames[0]["acts"]) - 1, {"k": "raw", "ctx": "recur", "text": "raze %s in frame %s0" % (side.choice(["all", "first", "last"]), prefix)})
@@ -208,7 +215,7 @@ def build_programs(plan):
                     acts.append({"k": "raw", "ctx": None, "text": "aux %s as %s%s" % (a["orig"], a["as"], (" if " + a["needs"]) if a["needs"] else "")})
                 else:
                     acts.append(a)
-            out.append({"name": f["name"], "over": f.get("over"), "acts": acts})
+            out.append(dict({"name": f["name"], "over": f.get("over"), "acts": acts}, **({"under": f["under"]} if f.get("under") else {})))
         return out
 
     second = None
@@ -237,7 +244,7 @@ def build_programs(plan):
                     acts.append({"k": "raw", "ctx": None, "text": "aux %s%s" % (cname, (" if " + a["needs"]) if a["needs"] else "")})
                 else:
                     acts.append(a)
-            out.append({"name": f["name"], "over": f.get("over"), "acts": acts})
+            out.append(dict({"name": f["name"], "over": f.get("over"), "acts": acts}, **({"under": f["under"]} if f.get("under") else {})))
         return out
 
     bmain = dict(twin_main, frames=b_frames(twin_main["frames"]))
@@ -300,7 +307,7 @@ class C12(Check):
                    "whether a razed clone that is 'done' but still entered gets its exit actions is outside this statement (probe razed-while-entered only)",
                    "program B (textual copies as ordinary auxiliaries) is the statement's 'what its original would produce alone'"]
     required_probes = ["insular", "named", "nested", "two-clones-of-one-original", "relative-entry-need", "reared", "razed-all", "razed-first", "razed-last",
-                       "raze-left-others", "raze-spared-non-razeable", "freed-name-taken-again", "dirty-plan", "razed-while-entered", "two-nested-clones-in-one-frame", "nested-named", "clock-driven-original", "raze-inside-original", "clones-under-two-framers", "marker-condition-in-original"]
+                       "raze-left-others", "raze-spared-non-razeable", "freed-name-taken-again", "dirty-plan", "razed-while-entered", "two-nested-clones-in-one-frame", "nested-named", "clock-driven-original", "raze-inside-original", "clones-under-two-framers", "marker-condition-in-original", "under-override-in-original"]
     quick_runs = 3000
     thorough_runs = 150000
     shrink_fields = []
@@ -335,6 +342,8 @@ class C12(Check):
         text = repr(plan)
         if "'text': 'timeout " in text or "'text': 'repeat " in text:
             out.probe("clock-driven-original")
+        if any(f.get("under") for o in plan["origs"] for f in o["frames"]):
+            out.probe("under-override-in-original")
         if plan.get("second"):
             out.probe("clones-under-two-framers")
         if " is updated" in text or " is changed" in text:
